@@ -28,6 +28,7 @@ inductive Exc where
   | assertion
   | zeroDivision
   | overflow
+  | invalidOperation  -- decimal.InvalidOperation (0/0, 0**0 on Decimals)
   | unmodelled        -- the model declines (cross-base prefix arithmetic, float exponents …)
   deriving DecidableEq, Repr, Inhabited
 
@@ -35,6 +36,7 @@ def Exc.name : Exc → String
   | .parseError => "ParseError" | .keyError => "KeyError" | .notFound => "ConversionNotFound"
   | .typeError => "TypeError" | .valueError => "ValueError" | .fractional => "Fractional"
   | .assertion => "Assertion" | .zeroDivision => "ZeroDivision" | .overflow => "Overflow"
+  | .invalidOperation => "Other:InvalidOperation"
   | .unmodelled => "Unmodelled"
 
 /-- Stable insertion sort (structural, so the kernel can evaluate it): `insertBy` puts `x`
